@@ -686,6 +686,7 @@ CLASS_TEXT = {
 
 HEADER = 'From QT Require Import C05.Run.\nOpen Scope string_scope.\nOpen Scope Z_scope.\n'
 SHARD = 800
+JOBS = 2      # coqc processes at once (the machine is shared)
 
 
 # ----------------------------------------------------------------------------------------------------------------
@@ -774,17 +775,17 @@ def run_plan(ctx, res, plan, tag, overlap_budget=10 ** 9):
         shards.append('Definition cases : list vcase := [\n %s].\n' % ';\n '.join(vrows[i:i + SHARD]))
         kinds.append(('v', vmeta[i:i + SHARD]))
     t1 = time.time()
-    outs = coq.eval_shards(ctx.workdir, 'c05v' + tag, HEADER, shards, ['bad_model cases', 'bad_spec cases', 'rule_flips cases', 'flips_lost cases', 'flips_lost_on_binary_grid cases'])
+    outs = coq.eval_shards(ctx.workdir, 'c05v' + tag, HEADER, shards, ['bad_model cases', 'bad_spec cases', 'rule_flips cases', 'flips_lost cases', 'flips_lost_on_binary_grid cases'], jobs=JOBS)
     sshards, skinds = [], []
     for i in range(0, len(srows), SHARD):
         sshards.append('Definition cases : list scase := [\n %s].\n' % ';\n '.join(srows[i:i + SHARD]))
         skinds.append(('s', smeta[i:i + SHARD]))
-    outs += coq.eval_shards(ctx.workdir, 'c05s' + tag, HEADER, sshards, ['bad_model_seq cases', 'bad_spec_seq cases'])
+    outs += coq.eval_shards(ctx.workdir, 'c05s' + tag, HEADER, sshards, ['bad_model_seq cases', 'bad_spec_seq cases'], jobs=JOBS)
     kinds += skinds
     fl = sorted(floats)
     rshards = ['Definition cases : list (sf * Z * Z) := [\n %s].\n' % ';\n '.join(repr_row(x) for x in fl[i:i + 2000])
                for i in range(0, len(fl), 2000)]
-    routs = coq.eval_shards(ctx.workdir, 'c05r' + tag, HEADER, rshards, ['bad_repr cases'])
+    routs = coq.eval_shards(ctx.workdir, 'c05r' + tag, HEADER, rshards, ['bad_repr cases'], jobs=JOBS)
     res['extra']['coq_wall_s'] = round(res['extra'].get('coq_wall_s', 0) + time.time() - t1, 2)
     bump('floats-checked-against-repr', len(fl))
     for i, (rc, lists, err) in enumerate(routs):
